@@ -1,31 +1,46 @@
 ------------------------------- MODULE GatewayP -------------------------------
 (* Gateway - composition of the per-subsystem property specifications into the   *)
 (* life of a transaction through one flows-mode engine (growth item of DESIGN.md *)
-(* section 5):                                                                    *)
-(*    select the flows of the transaction          (C03, restricted to exact URLs *)
-(*                                                  and the host wildcard)        *)
-(*    walk each flow's processor graph             (C04: FlowGraphP!TxVerdict)    *)
-(*    quotas consulted on the way                  (C01: FixedWindowP!Arrive,     *)
-(*                                                  C02: ConcurrencyP!Request)    *)
-(*    the answer sent back                         (C07: the first early response *)
-(*                                                  wins, its status unchanged)   *)
-(*    response / proxy error give slots back       (C02: Response, ProxyError)    *)
+(* section 5).                                                                    *)
+(*                                                                               *)
+(* STATEMENT (derived from the repository's own documentation: README.md          *)
+(* "Configure the flow.yaml and quota.yaml files", the processor descriptions in  *)
+(* streams/processors/registry/*.yaml, the comments of streams/streams.go,        *)
+(* streams/stream/stream.go and streams/resources):                               *)
+(*  S1 selection   a transaction runs the flows whose own filter (url pattern with *)
+(*                 path parameters / trailing wildcard, method, headers, query    *)
+(*                 parameters, status code) accepts it - and a quota's generated  *)
+(*                 system flow runs for the transactions the QUOTA's filter       *)
+(*                 accepts                                       (= C03 FilterP)  *)
+(*  S2 walk        within a flow the processors run along the connections, on the *)
+(*                 conditions they really produced; a processor that answers the  *)
+(*                 request ends the request walk - nothing else of the request    *)
+(*                 side runs, neither in this flow nor in a later one - and the   *)
+(*                 response walk continues from it            (= C04 FlowGraphP)  *)
+(*  S3 quotas      "the plugin will enforce a limit of N requests per interval":  *)
+(*                 a Limiter answers below_limit / above_limit as its quota       *)
+(*                 permits in the state left by ALL earlier transactions of all   *)
+(*                 flows (= C01 FixedWindowP, C02 ConcurrencyP); a quota nobody   *)
+(*                 refers to is charged by its system flow; an answered request   *)
+(*                 "drops the request slot from the quota" (stream.go), a         *)
+(*                 response or a proxy error gives it back                        *)
+(*  S4 answer      what goes back to the proxy is the combination of the actions  *)
+(*                 of the processors that ran (= C07 ActionsP): the first early   *)
+(*                 response unchanged, else the union of all header edits         *)
+(*  S5 safety      handling a transaction never crashes the engine (C05)          *)
 (* It is a specification of *recorded whole-engine histories*: GatewayTrace walks *)
 (* through the processor executions of every transaction (observed at the         *)
 (* proc.exec point) and takes one step of the quota specifications per quota      *)
-(* consultation, so that what one subsystem decides is what the next one sees:    *)
-(* a Limiter's output must be the verdict its quota's specification permits in    *)
-(* the state left by all earlier transactions, an early answer must give back     *)
-(* the concurrency slots taken earlier in the same transaction, a request that    *)
-(* two flows (or a quota's system flow and a Limiter) charge to one quota is      *)
-(* charged once.                                                                  *)
+(* consultation, so that what one subsystem decides is what the next one sees.    *)
 (*                                                                               *)
 (* Configuration (JSON of the trace's first line, see checks/gateway.py):         *)
-(*   cfg    = [flows |-> <<flow..>>, quotas |-> <<[id, kind, url]..>>]   as FlowGraphP *)
+(*   Cfg    = [flows |-> <<flow..>>, quotas |-> <<quota..>>]   flow as FlowGraphP *)
+(*            plus its filter pat / m / h / q / s as FilterP; quota = [id, kind,  *)
+(*            pat, m, h, q, s]                                                    *)
 (*   QMax, QW, QKind : [quota id -> ...],  LimQ : [Limiter key -> quota id]       *)
 EXTENDS FlowGraphP
 
-CONSTANTS Cfg, QIds, QKind, QMax, QW, QUrl, LimQ, GenStatus, HostWild, TxIds
+CONSTANTS Cfg, QIds, QKind, QMax, QW, LimQ, GenStatus, TxIds
 
 VARIABLES now,
           lo, hi, charged, admitted, fwlast,        \* FixedWindowP (fixed-window quotas)
@@ -49,12 +64,27 @@ CQ == INSTANCE ConcurrencyP WITH
 fwvars == <<lo, hi, charged, admitted, fwlast>>
 cqvars == <<inflight, deadline, cqlast>>
 
-\* ------------------------------------------------------------------ selection (C03, restricted)
-MatchesUrl(pat, url) == pat = url \/ pat = HostWild
-SelectedFlows(url) == {Cfg.flows[i].name : i \in {j \in 1..Len(Cfg.flows) : MatchesUrl(Cfg.flows[j].url, url)}}
-MatchingQuotas(url) == {q \in QIds : MatchesUrl(QUrl[q], url)}
+\* ------------------------------------------------------------------ selection (S1 = C03)
+F == INSTANCE FilterP
+
+SetOf(s) == {s[i] : i \in 1..Len(s)}
+FFlow(j, name, typ) == [name |-> name, pat |-> <<j.pat[1], j.pat[2]>>, m |-> SetOf(j.m), h |-> SetOf(j.h),
+                        q |-> SetOf(j.q), s |-> SetOf(j.s), typ |-> typ]
+QName(id) == "Q:" \o id
+UserF  == {FFlow(Cfg.flows[i], Cfg.flows[i].name, "user") : i \in 1..Len(Cfg.flows)}
+QuotaF == {FFlow(Cfg.quotas[i], QName(Cfg.quotas[i].id), "sysStart") : i \in 1..Len(Cfg.quotas)}
+\* user flows and the quotas' system flows live in one filter tree: the patterns of both take part in "more specific"
+AllF == UserF \cup QuotaF
+
+TxnOf(j) == [side |-> j.side, url |-> <<j.url[1], j.url[2]>>, method |-> j.method, hdr |-> SetOf(j.hdr),
+             qry |-> SetOf(j.qry), status |-> j.status]
+\* three-valued verdict of C03 ("yes" must run / "no" must not run / "either") for a user flow / a quota's system flow
+FlowV(name, x)  == LET f == CHOOSE g \in UserF : g.name = name IN F!Verdict(f, x, AllF)
+QuotaV(id, x)   == LET f == CHOOSE g \in QuotaF : g.name = QName(id) IN F!Verdict(f, x, AllF)
+FlowNames == {f.name : f \in UserF}
 
 UserFlowsIn(seq) == {seq[i].flow : i \in {j \in 1..Len(seq) : seq[j].sid = ""}}
+UserFlowsDir(seq, d) == {seq[i].flow : i \in {j \in 1..Len(seq) : seq[j].sid = "" /\ seq[j].dir = d}}
 
 \* ------------------------------------------------------------------ what a processor execution means for the quotas
 \* a processor of a quota's generated system flow carries sys = "inc" | "dec" and q = the quota id (projection of its key
@@ -73,9 +103,6 @@ LimVerdict(e) == IF e.out = "below_limit" THEN "admit" ELSE "refuse"
 Exposed(seq, q) ==
     LET I == {i \in 1..Len(seq) : IsLim(seq[i]) /\ LimQ[seq[i].key] = q}
     IN IF I = {} THEN "any" ELSE LimVerdict(seq[CHOOSE i \in I : \A j \in I : i <= j])
-\* all Limiters of one transaction on one quota agree (it is charged, and judged, once)
-LimitersAgree(seq) ==
-    \A i, j \in 1..Len(seq) : (IsLim(seq[i]) /\ IsLim(seq[j]) /\ LimQ[seq[i].key] = LimQ[seq[j].key]) => seq[i].out = seq[j].out
 
 \* ------------------------------------------------------------------ the answer (C07: the first early response wins)
 ReqGens(seq) == SelectSeq(seq, LAMBDA e : e.sid = "" /\ e.dir = "req" /\ KindAny(Cfg, e.key) = "Gen")
